@@ -20,9 +20,48 @@ type model struct {
 	sorted []uint32
 	dirty  bool
 	perHi  map[uint16]int
+	// over: buckets that have held more than 4096 members since they were last
+	// empty (what the coverage counters call "dense"; the real container kind is
+	// never inspected), gone: buckets that have been emptied at least once
+	over map[uint16]bool
+	gone map[uint16]bool
 }
 
-func newModel() *model { return &model{m: map[uint32]struct{}{}, perHi: map[uint16]int{}} }
+func newModel() *model {
+	return &model{m: map[uint32]struct{}{}, perHi: map[uint16]int{}, over: map[uint16]bool{}, gone: map[uint16]bool{}}
+}
+
+// state of the bucket of x: 0 absent, 1 sparse, 2 dense (see model.over)
+func (m *model) state(x uint32) int {
+	hi := uint16(x >> 16)
+	switch {
+	case m.perHi[hi] == 0:
+		return 0
+	case m.over[hi]:
+		return 2
+	}
+	return 1
+}
+
+// coverage counter names: op / bucket state / result of the operation
+var opCtr [3][3][2]string
+
+func init() {
+	for o, op := range []string{"add", "remove", "contains"} {
+		for b, st := range []string{"absent_bucket", "sparse_bucket", "dense_bucket"} {
+			for r, res := range []string{"false", "true"} {
+				opCtr[o][b][r] = op + "/" + st + "/" + res
+			}
+		}
+	}
+}
+
+func b2i(b bool) int {
+	if b {
+		return 1
+	}
+	return 0
+}
 
 func (m *model) add(x uint32) bool {
 	if _, ok := m.m[x]; ok {
@@ -30,6 +69,9 @@ func (m *model) add(x uint32) bool {
 	}
 	m.m[x] = struct{}{}
 	m.perHi[uint16(x>>16)]++
+	if m.perHi[uint16(x>>16)] > 4096 {
+		m.over[uint16(x>>16)] = true
+	}
 	m.dirty = true
 	return true
 }
@@ -42,6 +84,8 @@ func (m *model) remove(x uint32) bool {
 	m.perHi[uint16(x>>16)]--
 	if m.perHi[uint16(x>>16)] == 0 {
 		delete(m.perHi, uint16(x>>16))
+		delete(m.over, uint16(x>>16))
+		m.gone[uint16(x>>16)] = true
 	}
 	m.dirty = true
 	return true
@@ -73,15 +117,42 @@ type sut struct {
 	// kept: an All() sequence obtained earlier (possibly from the zero value);
 	// run later, more than once, it must enumerate the members of then
 	kept iter.Seq[uint32]
+	// cross: the previous operation took a bucket from 4096 to 4097 members (1)
+	// or from 4097 down to 4096 (2); an enumeration that follows directly is one
+	// made "immediately after the bucket crossed the threshold"
+	cross int
+	// emptied: a bucket became empty since the previous enumeration
+	emptied bool
+}
+
+func inPool(hi uint16) bool {
+	for _, h := range hiPool {
+		if h == hi {
+			return true
+		}
+	}
+	return false
 }
 
 func (s *sut) note(op byte, x uint32) { s.hash = ev.Mix(s.hash, uint64(op), uint64(x)) }
 
 func (s *sut) add(x uint32) bool {
 	s.note('a', x)
+	st := s.m.state(x)
 	want := s.m.add(x)
+	s.c.Add(opCtr[0][st][b2i(want)], 1)
+	s.cross = 0
 	if want && s.m.perHi[uint16(x>>16)] == 4097 {
 		s.c.Add("bucket_reached_4097", 1)
+		s.cross = 1
+	}
+	if st == 0 {
+		if s.m.gone[uint16(x>>16)] {
+			s.c.Add("bucket_recreated_after_empty", 1)
+		}
+		if !inPool(uint16(x >> 16)) {
+			s.c.Add("bucket_keys_outside_pool_created", 1)
+		}
 	}
 	var got bool
 	if !s.c.Guard("Add", func() { got = s.r.Add(x) }) {
@@ -99,9 +170,19 @@ func (s *sut) remove(x uint32) bool {
 	s.note('r', x)
 	hi := uint16(x >> 16)
 	before := s.m.perHi[hi]
+	st := s.m.state(x)
 	want := s.m.remove(x)
+	s.c.Add(opCtr[1][st][b2i(want)], 1)
+	s.cross = 0
+	if want && before == 4097 {
+		s.cross = 2
+	}
 	if want && before == 1 {
 		s.c.Add("bucket_became_empty", 1)
+		s.emptied = true
+		if st == 2 {
+			s.c.Add("dense_bucket_became_empty", 1)
+		}
 	}
 	var got bool
 	if !s.c.Guard("Remove", func() { got = s.r.Remove(x) }) {
@@ -120,6 +201,8 @@ func (s *sut) contains(x uint32) bool {
 		return true
 	}
 	_, want := s.m.m[x]
+	s.c.Add(opCtr[2][s.m.state(x)][b2i(want)], 1)
+	s.cross = 0
 	var got bool
 	if !s.c.Guard("Contains", func() { got = s.r.Contains(x) }) {
 		return false
@@ -179,17 +262,9 @@ func firstDiff(got, want []uint32) string {
 	return ""
 }
 
-// enumerate compares Iter, Range and All with the model, plus early termination.
-func (s *sut) enumerate() bool {
-	if s.quiet > 0 {
-		return true
-	}
-	want := s.m.list()
+// enumIter / enumRange / enumAll: one complete enumeration each, compared with the model.
+func (s *sut) enumIter(want []uint32) bool {
 	limit := len(want) + 3
-	s.enum++
-	s.c.Add("enumerations", 3)
-	s.c.Add("enumerated_values", int64(3*len(want)))
-	s.c.Max("max_buckets_in_enumeration", int64(len(s.m.perHi)))
 	var got []uint32
 	if !s.c.Guard("Iter", func() {
 		it := s.r.Iter()
@@ -207,7 +282,12 @@ func (s *sut) enumerate() bool {
 		s.c.Failf("iter-sequence", "Iter(): %s (members %d, buckets %d)", d, len(want), len(s.m.perHi))
 		return false
 	}
-	got = got[:0]
+	return true
+}
+
+func (s *sut) enumRange(want []uint32) bool {
+	limit := len(want) + 3
+	var got []uint32
 	if !s.c.Guard("Range", func() {
 		s.r.Range(func(x uint32) bool {
 			got = append(got, x)
@@ -220,7 +300,12 @@ func (s *sut) enumerate() bool {
 		s.c.Failf("range-sequence", "Range(): %s (members %d, buckets %d)", d, len(want), len(s.m.perHi))
 		return false
 	}
-	got = got[:0]
+	return true
+}
+
+func (s *sut) enumAll(want []uint32) bool {
+	limit := len(want) + 3
+	var got []uint32
 	if !s.c.Guard("All", func() {
 		for x := range s.r.All() {
 			got = append(got, x)
@@ -235,6 +320,66 @@ func (s *sut) enumerate() bool {
 		s.c.Failf("all-sequence", "All(): %s (members %d, buckets %d)", d, len(want), len(s.m.perHi))
 		return false
 	}
+	return true
+}
+
+// enumCoverage records which of the situations named in the statement this
+// enumeration is made in (model facts only).
+func (s *sut) enumCoverage(want []uint32) {
+	switch s.cross {
+	case 1:
+		s.c.Add("enumerated_directly_after_4097th_add", 1)
+	case 2:
+		s.c.Add("enumerated_directly_after_drop_to_4096", 1)
+	}
+	s.cross = 0
+	if s.emptied {
+		s.c.Add("enumerations_after_bucket_emptied", 1)
+		s.emptied = false
+	}
+	if n := len(s.m.over); n > 0 {
+		s.c.Add("enumerations_with_dense_bucket", 1)
+		if len(s.m.perHi) > n {
+			s.c.Add("enumerations_mixed_sparse_dense", 1)
+		}
+		for hi := range s.m.over {
+			if _, ok := s.m.m[uint32(hi)<<16|0xFFFF]; ok {
+				s.c.Add("enumerated_dense_low_65535", 1)
+			}
+			if _, ok := s.m.m[uint32(hi)<<16]; ok {
+				s.c.Add("enumerated_dense_low_0", 1)
+			}
+		}
+	}
+	if len(s.m.perHi) >= 1000 {
+		s.c.Add("enumerations_over_1000_buckets", 1)
+	}
+	if len(want) > 0 {
+		if want[0] == 0 {
+			s.c.Add("enumerated_member_0", 1)
+		}
+		if want[len(want)-1] == 1<<32-1 {
+			s.c.Add("enumerated_member_maxuint32", 1)
+		}
+	}
+}
+
+// enumerate compares Iter, Range and All with the model, plus early termination.
+func (s *sut) enumerate() bool {
+	if s.quiet > 0 {
+		return true
+	}
+	want := s.m.list()
+	limit := len(want) + 3
+	s.enum++
+	s.c.Add("enumerations", 3)
+	s.c.Add("enumerated_values", int64(3*len(want)))
+	s.c.Max("max_buckets_in_enumeration", int64(len(s.m.perHi)))
+	s.enumCoverage(want)
+	if !s.enumIter(want) || !s.enumRange(want) || !s.enumAll(want) {
+		return false
+	}
+	var got []uint32
 	// two iterators alive at the same time on the same bitmap, advanced in a seeded
 	// interleaving: each must still deliver every member
 	if len(want) > 0 && s.c.Rng.Chance(1, 3) {
@@ -633,14 +778,306 @@ func churnCase(c *ev.Case) {
 	}
 }
 
+// firstTouch makes the first call on the zero value through a seeded entry point
+// (the scripted engines above always start with Iter or Add).
+func (s *sut) firstTouch() bool {
+	rng := s.c.Rng
+	x := rng.Uint32()
+	if rng.Bool() {
+		x = uint32(rng.Pick(0, 1, 65535, 65536, 1<<32-1))
+	}
+	switch rng.Intn(7) {
+	case 0:
+		s.c.Add("zero_value_first_call/Len", 1)
+		return s.lenNow()
+	case 1:
+		s.c.Add("zero_value_first_call/Contains", 1)
+		return s.contains(x)
+	case 2:
+		s.c.Add("zero_value_first_call/Remove", 1)
+		return s.remove(x)
+	case 3:
+		s.c.Add("zero_value_first_call/Iter", 1)
+		return s.enumIter(nil)
+	case 4:
+		s.c.Add("zero_value_first_call/Range", 1)
+		return s.enumRange(nil)
+	case 5:
+		s.c.Add("zero_value_first_call/All", 1)
+		return s.enumAll(nil)
+	}
+	s.c.Add("zero_value_first_call/Add", 1)
+	return s.add(x)
+}
+
+// low halves at the ends of the range, of a 64-bit word and of the 4096 mark
+var edgeLows = []uint32{0, 1, 2, 62, 63, 64, 65, 4095, 4096, 4097, 32767, 32768, 65471, 65472, 65533, 65534, 65535}
+
+// manyCase: "any number of 16-bit key buckets": tens to thousands of buckets
+// (thorough: up to all 65536) whose keys are spread over the whole 16-bit range,
+// created in ascending, descending or random key order, a third of them emptied
+// and partly re-created, probes of values whose bucket does not exist, then
+// (sometimes) everything drained.
+func manyCase(c *ev.Case) {
+	rng := c.Rng
+	var rb setz.RoaringBitmap
+	s := &sut{c: c, r: &rb, m: newModel()}
+	nb := rng.Pick(40, 300, 300, 2500)
+	if c.Thorough() && rng.Chance(1, 100) {
+		nb = rng.Pick(20000, 65536)
+	}
+	keys := make([]uint16, nb)
+	layout := rng.Intn(4)
+	switch layout {
+	case 0: // random distinct keys
+		p := rng.Perm(65536)
+		for i := range keys {
+			keys[i] = uint16(p[i])
+		}
+	case 1: // a run of neighbouring keys
+		b := rng.Intn(65536 - nb + 1)
+		for i := range keys {
+			keys[i] = uint16(b + i)
+		}
+	case 2: // a run ending at 0xFFFF
+		for i := range keys {
+			keys[i] = uint16(65536 - nb + i)
+		}
+	default: // evenly spread
+		st := 65536 / nb
+		off := rng.Intn(st)
+		for i := range keys {
+			keys[i] = uint16(off + i*st)
+		}
+	}
+	order := rng.Intn(3)
+	switch order {
+	case 1:
+		for i, j := 0, nb-1; i < j; i, j = i+1, j-1 {
+			keys[i], keys[j] = keys[j], keys[i]
+		}
+	case 2:
+		p := rng.Perm(nb)
+		n := make([]uint16, nb)
+		for i, j := range p {
+			n[i] = keys[j]
+		}
+		keys = n
+	}
+	low := func() uint32 {
+		if rng.Chance(1, 3) {
+			return edgeLows[rng.Intn(len(edgeLows))]
+		}
+		return uint32(rng.Intn(65536))
+	}
+	if !s.firstTouch() {
+		return
+	}
+	for _, k := range keys {
+		for n := rng.Range(1, 3); n > 0; n-- {
+			if !s.add(uint32(k)<<16 | low()) {
+				return
+			}
+		}
+	}
+	if rng.Chance(1, 3) { // one of the many buckets is dense
+		hi := uint32(keys[rng.Intn(nb)]) << 16
+		st := uint32(rng.Pick(1, 3, 15))
+		for l := uint32(rng.Intn(100)); s.m.perHi[uint16(hi>>16)] < 4100 && l < 65536; l += st {
+			if !s.add(hi | l) {
+				return
+			}
+		}
+	}
+	if !s.enumerate() {
+		return
+	}
+	probe := func(n int) bool {
+		l := append([]uint32(nil), s.m.list()...) // members at the start of the probe
+		for i := 0; i < n; i++ {
+			x := rng.Uint32()
+			if rng.Bool() { // the bucket of a key next to an existing one
+				x = uint32(keys[rng.Intn(nb)]+uint16(rng.Range(0, 4))-2)<<16 | low()
+			}
+			switch rng.Intn(4) {
+			case 0:
+				if !s.remove(x) {
+					return false
+				}
+			case 1:
+				if len(l) > 0 {
+					x = l[rng.Intn(len(l))]
+				}
+				fallthrough
+			default:
+				if !s.contains(x) {
+					return false
+				}
+			}
+		}
+		return true
+	}
+	if !probe(200) {
+		return
+	}
+	// empty a third of the buckets completely, in random order
+	byHi := map[uint16][]uint32{}
+	for _, x := range s.m.list() {
+		byHi[uint16(x>>16)] = append(byHi[uint16(x>>16)], x)
+	}
+	p := rng.Perm(nb)
+	dropped := p[:(nb+2)/3]
+	for _, j := range dropped {
+		for _, x := range byHi[keys[j]] {
+			if !s.remove(x) {
+				return
+			}
+		}
+		delete(byHi, keys[j])
+	}
+	if !s.enumerate() || !probe(100) {
+		return
+	}
+	// re-create some of them, and create buckets that never existed
+	for _, j := range dropped {
+		if rng.Bool() {
+			if !s.add(uint32(keys[j])<<16 | low()) {
+				return
+			}
+		}
+	}
+	for n := rng.Range(0, 20); n > 0; n-- {
+		if !s.add(rng.Uint32()) {
+			return
+		}
+	}
+	if !s.enumerate() {
+		return
+	}
+	if rng.Bool() { // drain
+		l := append([]uint32(nil), s.m.list()...)
+		if rng.Bool() {
+			for i, j := range rng.Perm(len(l)) {
+				l[i], l[j] = l[j], l[i]
+			}
+		}
+		for _, x := range l {
+			if !s.remove(x) {
+				return
+			}
+		}
+		if !s.enumerate() {
+			return
+		}
+		for n := rng.Range(1, 5); n > 0; n-- {
+			if !s.add(uint32(keys[rng.Intn(nb)])<<16 | low()) {
+				return
+			}
+		}
+		if !s.enumerate() {
+			return
+		}
+	}
+	c.Add("many_bucket_cases", 1)
+	c.Distinct(s.hash)
+	if c.WantSample() {
+		c.Sample(fmt.Sprintf("many-buckets: %d buckets (key layout %d, creation order %d), a third emptied and partly re-created, %d enumerations compared, final members %d in %d buckets", nb, layout, order, s.enum, len(s.m.m), len(s.m.perHi)))
+	}
+}
+
+// edgeCase: the ends of the uint32 range and of a bucket (0, 0xFFFF low halves,
+// word boundaries of the dense form) in sparse and in dense buckets, including
+// such a value arriving as the 4097th member.
+func edgeCase(c *ev.Case) {
+	rng := c.Rng
+	var rb setz.RoaringBitmap
+	s := &sut{c: c, r: &rb, m: newModel(), quietCase: rng.Chance(1, 4)}
+	nb := rng.Range(1, 3)
+	his := make([]uint32, 0, nb)
+	for len(his) < nb {
+		h := uint32(rng.Pick(0, 0xFFFF, 0xFFFF, 0xFFFE, 1, 0x8000, rng.Intn(65536)))
+		dup := false
+		for _, o := range his {
+			dup = dup || o == h
+		}
+		if !dup {
+			his = append(his, h)
+		}
+	}
+	if !s.firstTouch() {
+		return
+	}
+	dense := rng.Chance(1, 4)
+	if dense { // fill with values that are mostly not edge values
+		for _, h := range his[:rng.Range(1, min(nb, 2))] {
+			upto := rng.Pick(4095, 4096, 4096, 4097, 4200)
+			st := uint32(rng.Range(5, 15))
+			for l := uint32(rng.Range(5, 40)); s.m.perHi[uint16(h)] < upto && l < 65536; l += st {
+				if !s.add(h<<16 | l) {
+					return
+				}
+			}
+		}
+	}
+	gen := func() uint32 {
+		l := edgeLows[rng.Intn(len(edgeLows))]
+		if rng.Chance(1, 4) {
+			l = uint32(rng.Pick(0, 65535))
+		}
+		return his[rng.Intn(nb)]<<16 | l
+	}
+	for i, nops := 0, rng.Pick(40, 150); i < nops; i++ {
+		x := gen()
+		switch p := rng.Intn(100); {
+		case p < 50:
+			if !s.add(x) {
+				return
+			}
+		case p < 80:
+			if !s.remove(x) {
+				return
+			}
+		default:
+			if !s.contains(x) {
+				return
+			}
+		}
+		if s.cross != 0 || rng.Chance(1, 40) {
+			if !s.enumerate() {
+				return
+			}
+		}
+	}
+	s.quiet = 0
+	if !s.lenNow() || !s.enumerate() {
+		return
+	}
+	for _, h := range his {
+		for _, l := range edgeLows {
+			if !s.contains(h<<16 | l) {
+				return
+			}
+		}
+	}
+	c.Add("edge_cases", 1)
+	if len(s.m.m) > 1 {
+		c.Distinct(s.hash)
+	}
+	if c.WantSample() {
+		c.Sample(fmt.Sprintf("edges: buckets %#x (pre-filled near 4096: %v), values at the ends of the range and of 64-bit words, %d enumerations compared, final members %d", his, dense, s.enum, len(s.m.m)))
+	}
+}
+
 func main() {
 	r := ev.New("C03")
-	r.Rule("one case = a seeded operation sequence (Add/Remove/Contains over chosen high-16-bit buckets, or a scripted fill of one bucket across 4096 and back) applied to RoaringBitmap and a map model; distinct = distinct hash of the Add/Remove sequence; non-trivial = at least two members and at least one full Iter/Range/All comparison")
-	r.Assume("the set model (Go map + sort) is the specification; container kinds are not inspected, bucket fill levels are tracked in the model")
+	r.Rule("one case = a seeded operation sequence (Add/Remove/Contains over chosen high-16-bit buckets, a scripted fill of one bucket across 4096 and back, tens to thousands of buckets with keys over the whole 16-bit range, or values at the ends of the uint32 range / of a bucket / of a 64-bit word) applied to RoaringBitmap and a map model; distinct = distinct hash of the Add/Remove sequence; non-trivial = at least two members and at least one full Iter/Range/All comparison")
+	r.Assume("the set model (Go map + sort) is the specification; container kinds are not inspected, bucket fill levels are tracked in the model (in counter names a 'dense_bucket' is one that has held more than 4096 members since it was last empty)")
 	r.Cases("mix", r.N(3000, 60000), ev.Opt{HangViolation: true}, mixCase)
 	r.Cases("threshold", r.N(60, 1500), ev.Opt{HangViolation: true}, thresholdCase)
 	r.Cases("churn", r.N(3000, 100000), ev.Opt{HangViolation: true}, churnCase)
 	r.Cases("dense", r.N(160, 4000), ev.Opt{HangViolation: true}, denseCase)
+	r.Cases("many-buckets", r.N(120, 2000), ev.Opt{HangViolation: true}, manyCase)
+	r.Cases("edges", r.N(300, 6000), ev.Opt{HangViolation: true}, edgeCase)
 	// cold start: one fresh process per case (first bitmap call of the process = first operation of the case)
 	r.CasesProc("cold-start/mix", 16, ev.Opt{Procs: 16, HangViolation: true}, mixCase)
 	r.CasesProc("cold-start/dense", 4, ev.Opt{Procs: 4, HangViolation: true}, denseCase)
@@ -653,5 +1090,41 @@ func main() {
 	r.Require("kept_sequences_rerun", 1000)
 	r.Require("two_live_iterators", 1000)
 	r.Require("dense_cases", 100)
+	// every operation against every bucket state with both results
+	r.Require("add/absent_bucket/true", 10000)
+	r.Require("add/sparse_bucket/true", 10000)
+	r.Require("add/sparse_bucket/false", 1000)
+	r.Require("add/dense_bucket/true", 500)
+	r.Require("add/dense_bucket/false", 200)
+	r.Require("remove/absent_bucket/false", 1000)
+	r.Require("remove/sparse_bucket/true", 10000)
+	r.Require("remove/sparse_bucket/false", 1000)
+	r.Require("remove/dense_bucket/true", 10000)
+	r.Require("remove/dense_bucket/false", 100)
+	r.Require("contains/absent_bucket/false", 2000)
+	r.Require("contains/sparse_bucket/true", 2000)
+	r.Require("contains/sparse_bucket/false", 2000)
+	r.Require("contains/dense_bucket/true", 500)
+	r.Require("contains/dense_bucket/false", 300)
+	// the situations the statement names for enumeration
+	r.Require("enumerated_directly_after_4097th_add", 20)
+	r.Require("enumerated_directly_after_drop_to_4096", 10)
+	r.Require("enumerations_mixed_sparse_dense", 100)
+	r.Require("dense_bucket_became_empty", 5)
+	r.Require("enumerations_after_bucket_emptied", 1000)
+	r.Require("bucket_recreated_after_empty", 1000)
+	// any number of buckets, keys and values over the whole range
+	r.Require("many_bucket_cases", 100)
+	r.Require("enumerations_over_1000_buckets", 20)
+	r.Require("bucket_keys_outside_pool_created", 10000)
+	r.Require("edge_cases", 250)
+	r.Require("enumerated_member_0", 50)
+	r.Require("enumerated_member_maxuint32", 50)
+	r.Require("enumerated_dense_low_0", 30)
+	r.Require("enumerated_dense_low_65535", 30)
+	// usable from the zero value through every entry point
+	for _, e := range []string{"Add", "Remove", "Contains", "Len", "Iter", "Range", "All"} {
+		r.Require("zero_value_first_call/"+e, 10)
+	}
 	r.Finish()
 }
